@@ -33,7 +33,7 @@ ACTIONS = ['Validate', 'CreateFile', 'AppendToFile', 'CreateEmptyDir', 'CreateDi
            'ExtendDirFromList', 'ExtendDirFromCopy', 'CopyClash', 'HardError', 'EndOfList', 'Populated',
            'ListDirect', 'StartWalk', 'ReadDir', 'VisitYieldDescend', 'VisitYield', 'VisitDescend', 'VisitSkip',
            'EndWalk', 'Judge']
-ALWAYS = ('full', 'full/B', 'num', 'empty')     # probes replayed for every scenario also in the quick tier
+ALWAYS = ('full', 'full/B', 'num', 'empty', 'repeat-split', 'repeat-split-wrong')     # probes replayed for every scenario also in the quick tier
 ALL_FAMILIES = ['populate', 'invalid', 'match', 'exists', 'names']
 GC = ['-XX:ParallelGCThreads=2']      # many single-worker TLC processes run side by side
 
